@@ -115,13 +115,17 @@ fn history<const MAX: usize>(rep: &mut Report, r: &mut Rng) {
         return;
     }
     // loading hands the CPU the table's own address with that limit
-    let (_, evs) = trapemu::trapped(|| unsafe { g.load_unsafe() });
-    rep.eval();
     let base = g.entries().as_ptr() as u64;
-    if evs.len() != 1 || evs[0].kind != K::Lgdt {
-        rep.violation("load_unsafe|not-exactly-one-lgdt", J::A(evs.iter().map(|e| J::s(trapemu::fmt_event(e))).collect()));
-    } else if evs[0].n as usize != 8 * shadow.len() - 1 || evs[0].val != base {
-        rep.violation("load_unsafe|wrong-limit-or-base", J::obj(vec![("limit", J::U(evs[0].n as u64)), ("expected_limit", J::U(8 * shadow.len() as u64 - 1)), ("base", J::hex(evs[0].val)), ("table", J::hex(base))]));
+    // `load` wants a `&'static`; the box outlives both calls
+    let st: &'static GlobalDescriptorTable<MAX> = unsafe { &*(&*g as *const GlobalDescriptorTable<MAX>) };
+    for which in ["load_unsafe", "load"] {
+        let (_, evs) = trapemu::trapped(|| if which == "load" { st.load() } else { unsafe { g.load_unsafe() } });
+        rep.eval();
+        if evs.len() != 1 || evs[0].kind != K::Lgdt {
+            rep.violation(&format!("{}|not-exactly-one-lgdt", which), J::A(evs.iter().map(|e| J::s(trapemu::fmt_event(e))).collect()));
+        } else if evs[0].n as usize != 8 * shadow.len() - 1 || evs[0].val != base {
+            rep.violation(&format!("{}|wrong-limit-or-base", which), J::obj(vec![("limit", J::U(evs[0].n as u64)), ("expected_limit", J::U(8 * shadow.len() as u64 - 1)), ("base", J::hex(evs[0].val)), ("table", J::hex(base))]));
+        }
     }
     if rep.want_sample() {
         rep.sample(J::obj(vec![("max", J::U(MAX as u64)), ("ops", J::A(log.iter().take(8).cloned().collect())), ("final_entries", J::A(shadow.iter().take(10).map(|&x| J::hex(x)).collect())), ("limit", J::U(g.limit() as u64))]));
